@@ -105,13 +105,18 @@ def expSetReadMode : List Event :=
    ("lock", "syncMutex", ""), ("read", "shuttingDown", "syncMutex"), ("return", "false", "syncMutex"), ("cmp", "data-nonempty", "syncMutex"),
    ("take", "data", "syncMutex"), ("write", "hasData=false", "syncMutex"), ("else", "", "syncMutex"), ("write", "readModes=Async", "syncMutex"),
    ("break", "", "syncMutex"), ("unlock", "syncMutex", "syncMutex"), ("call", "user:cb", ""), ("return", "true", "")]
-/-- step 6 of the `onClose` handler: everything from its LAST acquisition of `syncMutex` on (the part before it is C04's and C05's) -/
+/-- the `onClose` handler from its LAST acquisition of `syncMutex` on (the part before it is C04's and C05's): the section that marks
+the session closed (the former "step 6"; REPAIRED order, FC03c: it now comes FIRST), then the global close callback and the observers,
+each invoked with NO Transport mutex held, then the user-data cleanup -/
 def expOnCloseTail : List Event :=
   [("lock", "syncMutex", ""), ("read", "receiveBuffers", "syncMutex"), ("read", "receiveBuffers", "syncMutex"), ("write", "closed=true", "syncMutex"),
    ("notify_all", "buf.cv", "syncMutex"), ("write", "closed=true", "syncMutex"), ("write", "receiveBuffers", "syncMutex"), ("erase", "readModes", "syncMutex"),
    ("read", "receiveBuffers", "syncMutex"), ("read", "receiveBuffers", "syncMutex"), ("read", "receiveBuffers", "syncMutex"), ("read", "closed", "syncMutex"),
-   ("read", "hasData", "syncMutex"), ("read", "waiters", "syncMutex"), ("read", "flushing", "syncMutex"), ("erase", "receiveBuffers", "syncMutex"),
-   ("unlock", "syncMutex", "syncMutex"), ("lock", "userDataMutex", ""), ("unlock", "userDataMutex", "userDataMutex")]
+   ("read", "hasData", "syncMutex"), ("read", "waiters", "syncMutex"), ("read", "flushing", "syncMutex"), ("read", "overflow", "syncMutex"),
+   ("erase", "receiveBuffers", "syncMutex"),
+   ("unlock", "syncMutex", "syncMutex"), ("lock", "callbackMutex", ""), ("unlock", "callbackMutex", "callbackMutex"), ("call", "user:closeCb", ""),
+   ("lock", "observerMutex", ""), ("unlock", "observerMutex", "observerMutex"), ("call", "user:obsCb", ""),
+   ("lock", "userDataMutex", ""), ("unlock", "userDataMutex", "userDataMutex")]
 /-- the suffix of `l` that starts at its last `("lock", "syncMutex", "")` -/
 def lastSyncSection : List Event → List Event
   | [] => []
@@ -133,6 +138,35 @@ def setReadModeSkipsTombstone : Bool :=
 def c03SkeletonPinned : Bool :=
   fn "onData" == expOnData && fn "receiveSync" == expReceiveSync && fn "setReadMode" == expSetReadMode &&
   lastSyncSection (fn "onClose") == expOnCloseTail
+/-- T8 / FC03c: the close handler marks the session closed for the sync-receive layer (both `closed = true` writes and the
+`readModes.erase`, under `syncMutex`) BEFORE it invokes the global close callback, and that one before the observers; both are invoked
+with no Transport mutex held (`Model.SyncRecv.step`: `ioClose` precedes `ioCloseCb`) -/
+def closeMarksBeforeCallbacks : Bool :=
+  let f := fn "onClose"
+  before f ("erase", "readModes", "syncMutex") ("call", "user:closeCb", "") &&
+  before f ("notify_all", "buf.cv", "syncMutex") ("call", "user:closeCb", "") &&
+  before f ("call", "user:closeCb", "") ("call", "user:obsCb", "") &&
+  !before f ("call", "user:closeCb", "") ("write", "closed=true", "syncMutex") &&
+  !before f ("call", "user:obsCb", "") ("erase", "readModes", "syncMutex") &&
+  count f (fun e => e.1 == "call" && (e.2.1 == "user:closeCb" || e.2.1 == "user:obsCb")) == 2 &&
+  (fn "c03.exprs").contains ("expr", "onClose.order", "mark,closeCb,obsCb")
+/-- the conditions the model mirrors as decisions, with operators and operands (review F5: `waiters == 0` vs `>= 0` vs `> 1` are the same
+event tokens): the wait predicate `pred`, the single-waiter guard and the drain of `recvEnterS`, the teardown guard and the overflow test
+of `ioDataS`, the GC threshold test of `closeSess` and the GC gate `reclaimable` (FC03d: an overflowed tombstone is reclaimable only once
+`overflowReported`), the callback guards of the Async path and of the flush loop (a missing data callback DISCARDS the bytes: stated as
+an assumption of the check), and the BufferOverflow answer of `receiveSync` marking the buffer `overflowReported` (`drain`) -/
+def c03ConditionsPinned : Bool :=
+  (fn "c03.exprs").take 9 ==
+    [("expr", "recv.wait_until.pred", "[&buf,this]{returnbuf->hasData||buf->closed||buf->overflow||_impl->shuttingDown;}"),
+     ("expr", "recv.singleWaiterGuard", "buf->waiters>0||buf->flushing"),
+     ("expr", "onData.teardownGuard", "shuttingDown&&bufIt->second->waiters==0"),
+     ("expr", "onData.overflowCmp", "bufIt->second->data.size()+data.size()>config.maxSyncReceiveBuffer"),
+     ("expr", "onData.cbGuard", "cb"),
+     ("expr", "onClose.gcThresholdCmp", "receiveBuffers.size()>gcThreshold"),
+     ("expr", "onClose.gcGate", "it->first!=sid&&it->second->closed&&!it->second->hasData&&it->second->waiters==0&&!it->second->flushing&&(!it->second->overflow||it->second->overflowReported)"),
+     ("expr", "flush.cbGuard", "cb&&!flushData.empty()"),
+     ("expr", "recv.overflowBranch", "buf->overflowReported=true;return:BufferOverflow")] &&
+  (fn "c03.exprs").length == 10
 
 /-- `receiveSyncCancellable` is the loop the wrapper model (`Model/SyncRecvW.lean`) mirrors: entry token check; loop head = deadline
 test, token test, `remaining <= 0` → leave; ONE `receiveSync(sid, buffer, len, min(remaining, 100 ms))` per iteration; its result is
